@@ -94,6 +94,45 @@ def havoc_conditions(src, frontend):
                  for _, _, t in edits]
 
 
+def declare_unknown_callees(src, frontend, X):
+    """R9-auto: a function the extracted text calls but the generated file does not define (`cannot find function NAME in this scope`) - typically a helper that an
+    edit of the code under contract introduced - is declared with the signature it has in /repo (searched in the files the unit extracts from) as an external function
+    WITHOUT a contract: its result is unconstrained.  Sound for proofs (every result is explored) and it keeps an edited function decidable instead of UNDECIDED.
+    Returns (new_src, [descriptions]) or (None, [])."""
+    names = []
+    for fe in frontend:
+        m = re.search(r"cannot find function `(\w+)` in this scope", fe.get("message", ""))
+        if m and m.group(1) not in names:
+            names.append(m.group(1))
+    if not names:
+        return None, []
+    files = []
+    for it in X.items:
+        if getattr(it, "file", None) and it.file not in files:
+            files.append(it.file)
+    decls, notes = [], []
+    for nm in names:
+        sig = None
+        for f in files:
+            try:
+                text = X.read(f)
+            except Exception:
+                continue
+            m = re.search(r"\bfn %s\s*(<[^>]*>)?\s*\(([^{;]*?)\)\s*(->\s*[^{;]+?)?\s*\{" % re.escape(nm), text, re.S)
+            if m:
+                sig = (m.group(1) or "", " ".join(m.group(2).split()), " ".join((m.group(3) or "").split()), f)
+                break
+        if sig is None:
+            return None, []
+        ret = re.sub(r"\bResult<([^,<>]+(?:<[^<>]*>)?)>", r"Result<\1, Error>", sig[2])
+        decls.append("#[verifier::external_body] pub fn %s%s(%s) %s { unimplemented!() }" % (nm, sig[0], sig[1], ret))
+        notes.append("R9-auto: callee `%s` (%s) is not under contract; declared external with its real signature and NO contract (any result)" % (nm, sig[3]))
+    k = src.rfind("} // verus!")
+    if k < 0:
+        return None, []
+    return src[:k] + "\n".join(decls) + "\n" + src[k:], notes
+
+
 def desugar_destructuring_assign(src):
     """R13-auto: a destructuring assignment statement `(A, B, ..) = EXPR;` (not supported by Verus) is desugared the way rustc does:
     `let (verif_d0, verif_d1, ..) = EXPR; A = verif_d0; B = verif_d1; ..`."""
@@ -262,7 +301,10 @@ def run_unit(name, tier):
     for _ in range(4):
         if not (r["undecided"] and r.get("frontend")):
             break
-        new_src, notes = havoc_conditions(open(b["path"], encoding="utf-8").read(), r["frontend"])
+        cur = open(b["path"], encoding="utf-8").read()
+        new_src, notes = declare_unknown_callees(cur, r["frontend"], b["X"])
+        if new_src is None:
+            new_src, notes = havoc_conditions(cur, r["frontend"])
         if new_src is None:
             break
         with open(b["path"], "w", encoding="utf-8") as f:
